@@ -182,10 +182,25 @@ def run(cx):
     ra = clos.get("_resolve_animation_arg")
     if ra is None or host_names is None:
         raise AnalysisError("animation name tables not found")
-    allowed = None
-    for n in walk_local(ra):
-        if isinstance(n, ast.Assign) and norm(n.targets[0]) == "allowed":
-            allowed = lit.try_ev(n.value)
+    # the names the parser accepts, decided by evaluating its resolver on every candidate spelling (wherever the vocabulary
+    # is kept: a local set, a module-level table, ...)
+    allowed = set()
+    for cand in sorted(set(host_names) | set(st_tbl) | set(tk_tbl) | {"spin", "marquee", "fade", "none"}):
+        env_ = dl.Env(None)
+        for k_, f_ in clos.items():
+            dict.__setitem__(env_, k_, dl.Closure(f_, env_))
+        dict.__setitem__(env_, "vars", {})
+        dict.__setitem__(env_, "ctx", {})
+        try:
+            got_ = dl.Interp(pm, opaque={"ast.parse": ast.parse})._call(ra, [repr(cand)], {}, env_)
+        except dl.Raised:
+            continue
+        except dl.Unsupported as e:
+            raise AnalysisError(f"_resolve_animation_arg left the evaluable subset: {e}")
+        if got_ == cand:
+            allowed.add(cand)
+        else:
+            r.fail(f"parser/animation-name[{cand}]-stored-as-written", (pm, ra), f"_resolve_animation_arg({cand!r}) -> {got_!r}")
     r.check(host_names == set(st_tbl) == set(tk_tbl) == set(allowed or ()), "names/host=parser=emitter", (em.rel, em.const("_LCD_ANIMATION_START_FUNCS").lineno), f"host {sorted(host_names)}, parser {sorted(allowed or ())}, start {sorted(st_tbl)}, tick {sorted(tk_tbl)}")
     for k in sorted(st_tbl):
         r.check(st_tbl[k] in fns and len(fns[st_tbl[k]]["params"]) == 7, f"start[{k}]/helper-exists-arity-7", (em.rel, snippet_line), f"{st_tbl[k]}: {fns.get(st_tbl[k], {}).get('params')}")
@@ -199,39 +214,8 @@ def run(cx):
     r.check(handled_a == host_names, "host.animate/handles-every-name", (hm, animate), f"host animate handles {sorted(handled_a)}")
 
     # ---- C18-RATE ----------------------------------------------------------------------------
-    r = cx.rule("C18-RATE", "in every tick the guard `speed > 0 && last > 0 && now - last < speed => return` precedes every update of the animation state, and the last-step time is set to the current time right after it", floor=10)
-    for n, f in anim.items():
-        if "_tick_" not in n:
-            continue
-        b = f["body"]
-        i_guard = i_stamp = i_first_write = i_active = None
-        for i, s in enumerate(b):
-            if s["k"] == "if" and show(s["cond"]) == "!state.active" and any(x["k"] == "return" for x in s["then"]):
-                i_active = i
-            if s["k"] == "if" and show(s["cond"]) == "((state.speed_ms > 0) && (state.last_step > 0))":
-                inner = [x for x in s["then"] if x["k"] == "if"]
-                el = [x for x in s["then"] if x["k"] == "decl" and x["name"] == "elapsed"]
-                if inner and show(inner[0]["cond"]) == "(elapsed < state.speed_ms)" and any(x["k"] == "return" for x in inner[0]["then"]) and el and show(el[0]["init"]) == "(now - state.last_step)":
-                    i_guard = i
-            if s["k"] == "expr" and show(s["e"]) == "state.last_step = now":
-                i_stamp = i
-            writes = [x for st_ in all_stmts([s]) for e in stmt_exprs(st_) for x in sub_exprs(e) if x[0] in ("assign", "post", "pre") and (lname(x[2]) or "").startswith("state.")]
-            if writes and i_first_write is None:
-                i_first_write = i
-        nowd = [s for s in b if s["k"] == "decl" and s["name"] == "now"]
-        r.check(bool(nowd) and show(nowd[0]["init"]) == "millis()", f"{n}/now=millis()", (em.rel, snippet_line), "the tick must read the clock once")
-        r.check(i_active is not None and i_guard is not None and i_active < i_guard, f"{n}/inactive-check-then-rate-guard", (em.rel, snippet_line), "missing `if (!state.active) return;` or the rate guard")
-        r.check(i_guard is not None and i_stamp is not None and i_first_write == i_stamp and i_guard < i_stamp, f"{n}/rate-guard-before-any-state-update", (em.rel, snippet_line), f"rate guard @{i_guard}, first state write @{i_first_write}, last_step := now @{i_stamp}: an early tick must not change the animation, and the step time must be the current time")
-    # host
-    tr_body = norm(tick)
-    stamp = [n_ for n_ in walk_local(tick) if isinstance(n_, ast.Assign) and norm(n_.targets[0]) == "state.last_tick"]
-    aug = [n_ for n_ in walk_local(tick) if isinstance(n_, ast.AugAssign) and norm(n_.target) == "state.last_tick"]
-    r.check(len(stamp) == 1 and norm(stamp[0].value) == "now_ms" and not aug, "host.tick/last_tick:=now", (hm, tick), f"host step time updates: {[stmt_key(x) for x in stamp + aug]}; it must be set to now_ms (otherwise a late tick lets the next one come early)")
-    guard = [n_ for n_ in walk_local(tick) if isinstance(n_, ast.If) and norm(n_.test) == "state.last_tick and now_ms - state.last_tick < state.speed_ms" and isinstance(n_.body[-1], ast.Continue)]
-    r.check(len(guard) == 1 and stamp and guard[0].lineno < stamp[0].lineno, "host.tick/rate-guard-before-update", (hm, tick), "host rate guard missing or after the update")
-    if stamp:
-        first_state_write = min([n_.lineno for n_ in walk_local(tick) if isinstance(n_, (ast.Assign, ast.AugAssign)) and norm(n_.targets[0] if isinstance(n_, ast.Assign) else n_.target).startswith("state.")] or [0])
-        r.check(first_state_write == stamp[0].lineno, "host.tick/no-state-write-before-guard", (hm, tick), "the host tick changes animation state before the rate guard")
+    rule_rate(cx, em, hm, fns, st_tbl, tk_tbl, snippet_line)
+    tick = hm.func("LCD.tick")
 
     # ---- C18-ACTIVE --------------------------------------------------------------------------
     r = cx.rule("C18-ACTIVE", "an animation is deactivated only when it is not looping (`active = false` under !loop, or `active = loop`), every non-looping style can deactivate, start activates", floor=14)
@@ -297,3 +281,125 @@ def run(cx):
 
     from . import c08
     c08.bind_rule(cx, "C18-BIND", "C18-MAP", only=("LCDAnimate",), floor=5)
+
+
+
+def _anim_struct(em):
+    """fields (type, name) and initial values of the firmware's animation record, from the helper snippet"""
+    snip = lit.table(em, "LCD_HELPER_SNIPPET")
+    m = re.search(r"struct __redu_lcd_animation_state \{(.*?)\n\};", snip, re.S)
+    if not m:
+        raise AnalysisError("struct __redu_lcd_animation_state vanished")
+    body = m.group(1)
+    fields = re.findall(r"^\s{2}([A-Za-z_][\w ]*?)\s+(\w+)(?:\s*=\s*([^;]+))?;", body, re.M)
+    inits = dict(re.findall(r"(\w+)\(([^()]*)\)", body.split(")\n      :", 1)[1])) if ")\n      :" in body else dict(re.findall(r"(\w+)\(([^()]*)\)", body.split(":", 1)[1] if ":" in body else ""))
+    enum, nxt = {}, 0
+    m_ = re.search(r"enum\s+__redu_lcd_align\s*\{([^}]*)\}", snip)
+    for item in [x.strip() for x in (m_.group(1) if m_ else "").split(",") if x.strip()]:
+        nm, _, val = item.partition("=")
+        nxt = int(val) if val.strip() else nxt
+        enum[nm.strip()] = nxt
+        nxt += 1
+
+    def fresh():
+        st = {"__types__": {n: t for t, n, _d in fields}}
+        for t, n, d in fields:
+            raw = (inits.get(n) if n in inits else (d or "0")).strip()
+            try:
+                st[n] = raw.strip('"') if t == "String" else 1 if raw == "true" else 0 if raw == "false" else int(raw.rstrip("ULul") or 0)
+            except ValueError:
+                raise AnalysisError(f"initial value `{raw}` of animation field {n} not understood")
+        return st
+    return fresh, enum
+
+
+def rule_rate(cx, em, hm, fns, st_tbl, tk_tbl, snippet_line):
+    """rate limiting decided by evaluation: the firmware's start/tick helpers (C semantics, scripted millis()) and the host's
+    animate()/tick() (checker's interpreter) are driven through the same tick schedules - on time, early, late-then-quick,
+    dense - for every style, two texts, looping and not, three speeds"""
+    from .. import ckern
+    from . import c04
+    r = cx.rule("C18-RATE", "for every style x text x speed (0/100/250 ms) x loop x tick schedule: a tick changes the animation (a step) only if at least speed_ms have passed since the previous step and always if they have (while active); host and firmware step on exactly the same ticks and agree on when the animation ends; an early tick changes nothing at all", floor=60, exhaustive=True)
+    fresh, enum = _anim_struct(em)
+    sched = {
+        100: ([100, 150, 199, 200, 201, 299, 300, 301, 450, 460, 559, 560, 1000, 1001, 1100], [100, 350, 360, 370, 449, 450, 451, 1000, 1005, 1010, 1099, 1100, 1199, 1200], list(range(100, 800, 37))),
+        250: ([500, 600, 749, 750, 751, 999, 1000, 1001, 1600, 1610, 1849, 1850, 3000], [500, 1400, 1410, 1420, 1649, 1650, 1651, 3000, 3005, 3249, 3250]),
+        0: ([100, 101, 102, 103, 110, 111],),
+    }
+    COLS = 8
+    n_bad = 0
+    for style in sorted(st_tbl):
+        sfn, tfn = st_tbl[style], tk_tbl.get(style)
+        if sfn not in fns or tfn not in fns:
+            raise AnalysisError(f"helpers of style {style} not found in the snippet")
+        for text in ("hello", "a text longer than the row"):
+            for speed, schedules in sched.items():
+                for loop in (True, False):
+                    for times in schedules:
+                        # firmware
+                        st = fresh()
+                        now = [50]
+                        k = ckern.CallKern(fns, env={"st": st, "lcdobj": 0}, consts=enum, max_steps=2_000_000)
+                        k.call_hooks["millis"] = lambda a_, _n=now: _n[0]
+                        try:
+                            k.ev(("call", sfn, [("var", "st"), ("var", "lcdobj"), ("lit", COLS), ("lit", 0), ("lit", '"' + text + '"'), ("lit", speed), ("lit", loop)]))
+                            fw = []
+                            for t_ in times:
+                                now[0] = t_
+                                before = {a_: b_ for a_, b_ in st.items() if a_ != "__types__"}
+                                n0 = sum(1 for ev_ in k.events if ev_[0] not in ("millis",))
+                                k.ev(("call", tfn, [("var", "st"), ("var", "lcdobj"), ("lit", COLS)]))
+                                drew = sum(1 for ev_ in k.events if ev_[0] not in ("millis",)) > n0
+                                fw.append((before != {a_: b_ for a_, b_ in st.items() if a_ != "__types__"} or drew, bool(st.get("active"))))
+                        except ckern.KernUnsupported as e:
+                            raise AnalysisError(f"animation helpers of style {style} left the evaluable subset: {e}")
+                        # host
+                        o = c04.host_object(hm, "LCD", rs=12, en=11, d4=5, d5=4, d6=3, d7=2, cols=COLS, rows=2)
+                        try:
+                            out = dl.Interp(hm).call(hm.func("LCD.animate"), [o, style, 0, text], {"speed_ms": speed, "loop": loop})
+                            if out.kind != "return":
+                                raise AnalysisError(f"host animate({style!r}) raises {out.value}")
+                            host = []
+                            for t_ in times:
+                                snap = lambda: (tuple(o.buffer), tuple(sorted((k_, tuple(sorted((a_, repr(b_)) for a_, b_ in vars(v_).items() if not a_.startswith("__dl_")))) for k_, v_ in o.animations.items())))
+                                b4 = snap()
+                                out = dl.Interp(hm).call(hm.func("LCD.tick"), [o, t_])
+                                if out.kind != "return":
+                                    raise AnalysisError(f"host tick raises {out.value}")
+                                host.append((snap() != b4, any(getattr(v_, "active", False) for v_ in o.animations.values())))
+                        except dl.Unsupported as e:
+                            raise AnalysisError(f"host animate/tick left the evaluable subset: {e}")
+                        why = None
+                        for side, trace in (("firmware", fw), ("host", host)):
+                            last = None
+                            for t_, (stepped, active) in zip(times, trace):
+                                due = last is None or t_ - last >= speed
+                                was_active = True if last is None else prev_active
+                                if stepped and not due:
+                                    why = f"{side}: tick at {t_} ms changes the animation only {t_ - last} ms after the step at {last} ms (speed {speed} ms)"
+                                elif not stepped and due and was_active and speed > 0 and last is not None:
+                                    why = f"{side}: tick at {t_} ms does nothing although {t_ - last} ms have passed since the step at {last} ms (speed {speed} ms) and the animation is active"
+                                if stepped:
+                                    last = t_
+                                prev_active = active
+                                if why:
+                                    break
+                            if why:
+                                break
+                        if why is None and [x[0] for x in fw] != [x[0] for x in host]:
+                            i_ = next(i for i, (a_, b_) in enumerate(zip(fw, host)) if a_[0] != b_[0])
+                            why = f"at the tick at {times[i_]} ms the firmware {'steps' if fw[i_][0] else 'does not step'} and the host {'steps' if host[i_][0] else 'does not step'}"
+                        if why is None and [x[1] for x in fw] != [x[1] for x in host]:
+                            i_ = next(i for i, (a_, b_) in enumerate(zip(fw, host)) if a_[1] != b_[1])
+                            why = f"after the tick at {times[i_]} ms the firmware animation is {'active' if fw[i_][1] else 'finished'} and the host's is {'active' if host[i_][1] else 'finished'}"
+                        if why is None:
+                            r.ok(None)
+                        else:
+                            n_bad += 1
+                            if n_bad <= 3:
+                                side_key = "host" if why.startswith("host") else "firmware" if why.startswith("firmware") else "host=firmware"
+                                r.fail(f"rate[{style}]/{side_key}", (em.rel, snippet_line) if side_key != "host" else (hm, hm.func("LCD.tick")), f"{style} {text!r}, speed {speed} ms, loop={loop}, ticks at {times[:8]}...: {why}", detail={"style": style, "text": text, "speed": speed, "loop": loop, "times": times})
+                            else:
+                                r.stat.obligations += 1
+                                r.stat.failed += 1
+    return r
